@@ -7,6 +7,7 @@
   search for a failing input when a correspondence breaks.
 -/
 import Frrs.Import
+import Frrs.ShortHash
 namespace Frrs
 
 structure OIn where
@@ -16,6 +17,8 @@ structure OIn where
   cmap : List (Bytes × Bytes)
   rmap : List (Bytes × Bytes)
   byOid : Bool := false        -- end-to-end: commit-map ids are real ids = `original-oid` in the re-export
+  prior : Option ShMap := none -- the commit-map an earlier run left in the debug directory (turns on the old-id translator)
+  dynIds : Bool := false       -- a real run: the translator also learns old ↦ new for every commit it has written so far
 
 def hexNat : Nat → Bytes → Option Nat
   | acc, [] => some acc
@@ -45,6 +48,19 @@ def mapEntry (x : OIn) (c : ICommit) : Option (Option Nat) :=
       else match (hexNat 0 id).bind x.dst.mark? with
         | some (.commit idx) => some (some idx)
         | _ => none
+
+/-- the old-id translator as it stands when the message of the commit with original id `oid` is rewritten (`none`: after the
+    last commit, where annotated tags are): the earlier run's map, plus — in a real run — one `update_mapping` per commit
+    written before, in stream order, with the ids of this run's commit-map -/
+def translatorAt (x : OIn) (oid : Option Bytes) : Option (Bytes → Bytes) :=
+  match x.prior with
+  | none => x.o.shortHash
+  | some m0 =>
+    let before := match oid with
+      | some o => x.cmap.takeWhile fun (l : Bytes × Bytes) => l.1 != o
+      | none => x.cmap
+    let m := if x.dynIds then before.foldl (fun (m : ShMap) (l : Bytes × Bytes) => if l.2 == zeroId then m else m.update l.1 l.2) m0 else m0
+    some m.rewrite
 
 /-- image of source commit `i`: its own rewritten commit, or the image of its first parent -/
 def img (x : OIn) : Nat → Nat → Option Nat
@@ -161,7 +177,8 @@ def checkCommit (x : OIn) (i : Nat) (c : ICommit) : List String :=
         let nrm (l : List Bytes) := if x.byOid then l.map normIdent else l
         let hdrErr := if nrm d.headers != nrm (c.headers.map (rewriteIdentityLine x.o)) then
             ["C04: author/committer/encoding lines of " ++ tag ++ " are not the documented rewriting of the originals"] else []
-        let msgErr := if x.o.shortHash.isNone && x.o.msgRegex.isNone && d.msg != rewriteMessage x.o c.msg then
+        let msgErr := if (x.o.shortHash.isNone || x.prior.isSome) && x.o.msgRegex.isNone &&
+            d.msg != rewriteMessage { x.o with shortHash := translatorAt x c.origOid } c.msg then
             ["C04: message of " ++ tag ++ " is not the documented rewriting of the original"] else []
         treeErr ++ parErr ++ rootErr ++ hdrErr ++ msgErr
       | none =>
@@ -194,7 +211,8 @@ def checkRefs (x : OIn) : List String :=
        | some a, some b =>
          (if (a.target.bind (imgP x)) != b.target then ["C03: annotated tag " ++ showBytes n ++ " does not point at the image of its target"] else []) ++
          (if a.headers != b.headers then ["C03: annotated tag " ++ showBytes n ++ " lost or changed its tagger"] else []) ++
-         (if x.o.shortHash.isNone && x.o.msgRegex.isNone && b.msg != rewriteMessage x.o a.msg then ["C04: message of annotated tag " ++ showBytes n ++ " is not the documented rewriting"] else [])
+         (if (x.o.shortHash.isNone || x.prior.isSome) && x.o.msgRegex.isNone &&
+             b.msg != rewriteMessage { x.o with shortHash := translatorAt x none } a.msg then ["C04: message of annotated tag " ++ showBytes n ++ " is not the documented rewriting"] else [])
        | _, _ => ["C03: tag object missing for " ++ showBytes n])
     | .tag _, some (some (.commit _)) => ["C03: annotated tag " ++ showBytes n ++ " is no longer a tag object"]
     | .commit _, some (some (.tag _)) => ["C03: " ++ showBytes n ++ " became a tag object"]
